@@ -17,7 +17,7 @@ inductive Origin
   | smax (a b : Origin)        -- `setNumVal a b`
   | rev (a : Origin)           -- `revBasis a`
   | iis (slk tgt : Origin)     -- `iisVal slk tgt` (0 if it raises; then the run raises as well)
-deriving Repr
+deriving Repr, DecidableEq
 
 def Origin.eval (S0 : St) : Origin → Val
   | .init c => S0 c
@@ -97,5 +97,8 @@ def tracePre (k : Kind) (zero : Cell → Bool) : List Entry → Cell → Option 
         | none => none
       else none)
     else tracePre k zero B c
+
+/-- cells of nodes that a call does not load are zero after `CleanUpValueNodes` -/
+def notLoaded (inputs : List (Nat × List Val)) : Cell → Bool := fun c => (inputs.lookup c.1).isNone
 
 end MpVerif.C04
